@@ -175,7 +175,36 @@ fn check_wall(ctx: &Ctx, m: &Model, wname: &str, case: &dyn Fn() -> Value, acc: 
         }
     }
     acc.outcomes.insert(got.map_or(u64::MAX, |g| g.to_bits() as u64));
+    if acc.n % ctx.tier.pick(4, 1) == 0 {
+        check_props(ctx, m, case, acc);
+    }
     got
+}
+
+/// second observation point: the U-value reported with the indicators, for every wall of the model (several walls share
+/// a construction under different boundary kinds and tilts)
+fn check_props(ctx: &Ctx, m: &Model, case: &dyn Fn() -> Value, acc: &mut Acc) {
+    let ind = match catch(std::panic::AssertUnwindSafe(|| m.energy_indicators())) {
+        Ok(i) => i,
+        Err(_) => return, // totality is C14's question
+    };
+    for w in &m.walls {
+        acc.n += 1;
+        let Some(p) = ind.props.walls.get(&w.id) else { continue };
+        let exp = uref::u_ref(m, w);
+        let ok = match (p.u_value, &exp) {
+            (None, None) => true,
+            (Some(g), Some(iv)) => !iv.nominal.is_finite() || (g.is_finite() && iv.contains(g as f64)),
+            _ => false,
+        };
+        if !ok {
+            ctx.violation(
+                &format!("props.walls.u_value:{:?}:{:?}", w.bounds, crate::ind::tilt_class(w.geometry.tilt as f64)),
+                &format!("indicators report U={:?} for wall {} but the standards give {:?}", p.u_value, w.name, exp.map(|i| (i.lo, i.hi))),
+                json!({"case": case(), "wall": w.name, "model": serde_json::to_value(m).unwrap()}),
+            );
+        }
+    }
 }
 
 /// monotonicity: one more layer / one layer doubled never increases U (air-contact elements and partitions)
@@ -286,7 +315,7 @@ pub fn run(ctx: &Ctx) -> i32 {
     ctx.note("branches_reached", json!(b));
     ctx.finish(
         "model_checking",
-        "dependent full products per boundary kind: EXTERIOR/ADIABATIC: tilt{0,45,60,60.01,90,119.99,120,180,270} x layer stack{[], [ins], [R-only], [ins,R-only], [massive], missing material, lambda=0, missing construction (+2 in thorough)} x space kind(3); INTERIOR: x neighbour{conditioned, unconditioned, uninhabited, none, dangling} x n_v{given, not} x building ventilation{given, not} x slab insulation x neighbour depth x owner side; GROUND: x burial depth z x perimeter insulation (D,Rn) x slab size x exposed-perimeter share x slab insulation (the subject is the slab itself for floor tilts); + monotonicity variants (extra layer, extra R-only layer, first layer doubled) for air-contact elements and partitions; + every wall of the 7 shipped models; oracle: f64 formulas of EN ISO 6946/13370/13789 with the rounding-interval rule; non-trivial = a U-value is defined",
+        "dependent full products per boundary kind: EXTERIOR/ADIABATIC: tilt{0,45,60,60.01,90,119.99,120,180,270} x layer stack{[], [ins], [R-only], [ins,R-only], [massive], missing material, lambda=0, missing construction (+2 in thorough)} x space kind(3); INTERIOR: x neighbour{conditioned, unconditioned, uninhabited, none, dangling} x n_v{given, not} x building ventilation{given, not} x slab insulation x neighbour depth x owner side; GROUND: x burial depth z x perimeter insulation (D,Rn) x slab size x exposed-perimeter share x slab insulation (the subject is the slab itself for floor tilts); + monotonicity variants (extra layer, extra R-only layer, first layer doubled) for air-contact elements and partitions; + every wall of the 7 shipped models; for every 4th model (all in thorough) also the U-value reported in EnergyIndicators.props.walls for every wall of the model (constructions shared between boundary kinds and tilts); oracle: f64 formulas of EN ISO 6946/13370/13789 with the rounding-interval rule; non-trivial = a U-value is defined",
         true,
         json!({}),
     )
